@@ -37,7 +37,10 @@ COMP = {
         mc="CorePinsMC", gen="CorePinsGen", trace="CorePinsTrace", record=host_sens.core_trace,
         grids={"tiny": dict(Labels="LabelsQ", Names="NamesQ", Modes="ModesT", DVals="DValsT", AVals="AValsT"),
                "quick": dict(Labels="LabelsQ", Names="NamesQ", Modes="ModesDef", DVals="DValsQ", AVals="AValsQ"),
-               "full": dict(Labels="LabelsDef", Names="NamesDef", Modes="ModesDef", DVals="DValsDef", AVals="AValsDef")},
+               "full": dict(Labels="LabelsDef", Names="NamesDef", Modes="ModesDef", DVals="DValsDef", AVals="AValsDef"),
+               # exhaustive check, thorough tier: two pins x full value grids, and three pins x smallest value grids
+               "deep": dict(Labels="LabelsQ", Names="NamesQ", Modes="ModesDef", DVals="DValsDef", AVals="AValsDef"),
+               "wide": dict(Labels="LabelsDef", Names="NamesDef", Modes="ModesDef", DVals="DValsT", AVals="AValsT")},
         mc_head="INIT UInit\nNEXT UNext\n", mc_tail="VIEW MemView\n", mc_extra="  MaxLen = 0\n",
         invariants=["TypeOK", "ClampAnalog", "DigitalIsBit", "PullupDefault"],
         properties=["ReadReturnsStored", "ReadYourWrites", "ReadsArePure", "NonInterference", "AliasIntStr", "WritesKeepKinds"],
@@ -69,6 +72,14 @@ COMP = {
         invariants=["WriteReturnsStr", "WriteSendsExactly", "AtMostOneOpen", "CloseIdempotent", "NoBackendNoTraffic",
                     "OnlyLiveHandleUsed", "BaudValidated", "OpenUsesConfiguredBaud"],
         properties=["ReconnectClosesOld", "CloseOnlyWhenOpen", "RefusedCallChangesNothing"], gen_head="INIT GInit\nNEXT GNext\n"),
+}
+
+# vacuity guard on the implementation side: every operation, and every refusal the property names, must occur
+EXPECT_ACTS = {
+    "core": ["pin_mode:ok", "digital_write:ok", "analog_write:ok", "digital_read:ok", "analog_read:ok"],
+    "utils": ["map:ok", "map:raise", "sleep:ok", "sleep:raise"],
+    "sensors": ["is_pressed:ok", "set_pressed:ok", "read:ok", "read:raise", "measure:ok", "measure:raise"],
+    "serial": ["new:ok", "new:raise", "connect:ok", "connect:raise", "close:ok", "write:ok", "read:ok", "read:raise"],
 }
 
 # minimal stimuli meeting exactly one known trigger (probe stratum, run on every invocation)
@@ -188,10 +199,18 @@ def conform(comp: str, behs: list, run, label: str, variants=(0,), extra_variant
         traces.append(make_trace(comp, behs[i], tid, v))
         meta[tid] = (behs[i], v)
         run.count(tid)
+    acts = run.cov.setdefault("calls_executed", {}).setdefault(comp, {})
+    for t in traces:
+        for e in t["ev"]:
+            k = f"{e['act']}:{e['out']}"
+            acts[k] = acts.get(k, 0) + 1
+    missing = [a for a in EXPECT_ACTS[comp] if a not in acts]
+    if missing:
+        raise MachineryError(f"{comp}: generated behaviours never exercise {missing} (vacuous run)")
     verdicts = validate(COMP[comp]["trace"], COMP[comp]["trace"] + ".cfg", traces, run, label=f"{comp} {label}")
     byid = {t["id"]: t for t in traces}
     run.sample({"component": comp, "behaviour": meta[traces[0]["id"]][0], "trace": traces[0]["ev"][:3]}, limit=8)
-    for tid, v in verdicts.items():
+    for tid, v in sorted(verdicts.items()):
         beh, var = meta[tid]
         rep = {"component": comp, "behaviour": beh, "variant": var, "verdict": v, "trace": byid[tid]["ev"]}
         for k in v.get("known", []) or []:
@@ -225,7 +244,8 @@ def check(run) -> None:
     ]
     s = run.seed
     # ---- Core pins
-    model_check("core", "quick" if quick else "full", run)
+    for g in (["quick"] if quick else ["deep", "wide"]):
+        model_check("core", g, run)
     memory_law("tiny" if quick else "quick", 3, run)
     behs = sample(generate("core", "quick", 2, run), 1500 if quick else 100000, s)
     if not quick:
